@@ -311,9 +311,9 @@ func (m *chainMachine) advance(n int64) {
 	m.oracle.afterAdvance(m, pre, m.snap)
 }
 
-func (m *chainMachine) signTx(msg sdk.Msg, signer *cmActor) []byte {
+func (m *chainMachine) signTx(msg sdk.Msg, signer *cmActor, more ...sdk.Msg) []byte {
 	b := m.txcfg.NewTxBuilder()
-	if err := b.SetMsgs(msg); err != nil {
+	if err := b.SetMsgs(append([]sdk.Msg{msg}, more...)...); err != nil {
 		panic(err)
 	}
 	b.SetGasLimit(50_000_000)
@@ -345,10 +345,10 @@ func (m *chainMachine) signTx(msg sdk.Msg, signer *cmActor) []byte {
 
 // deliver signs msg with signer, delivers it to the application(s), snapshots, and
 // calls the oracle. It returns the transaction record.
-func (m *chainMachine) deliver(label string, msg sdk.Msg, signer *cmActor) *cmTx {
+func (m *chainMachine) deliver(label string, msg sdk.Msg, signer *cmActor, more ...sdk.Msg) *cmTx {
 	pre := m.snap
 	m.oracle.beforeTx(m, msg, signer)
-	txb := m.signTx(msg, signer)
+	txb := m.signTx(msg, signer, more...)
 	resp := m.app.DeliverTx(abci.RequestDeliverTx{Tx: txb})
 	if m.twin != nil {
 		r2 := m.twin.DeliverTx(abci.RequestDeliverTx{Tx: txb})
